@@ -106,6 +106,10 @@ pub struct Node {
     // utilize this to simulate node being connected.
     #[cfg(test)]
     enabled_as_connected: AtomicBool,
+
+    // Verification hook: 0 = no override, 1 = report not connected, 2 = report connected.
+    #[cfg(scylla_verif)]
+    verif_connected: std::sync::atomic::AtomicU8,
 }
 
 /// A way that Nodes are often passed and accessed in the driver's code.
@@ -144,6 +148,8 @@ impl Node {
             pool: Some(pool),
             #[cfg(test)]
             enabled_as_connected: AtomicBool::new(false),
+            #[cfg(scylla_verif)]
+            verif_connected: std::sync::atomic::AtomicU8::new(0),
         }
     }
 
@@ -161,6 +167,8 @@ impl Node {
             pool: None,
             #[cfg(test)]
             enabled_as_connected: AtomicBool::new(false),
+            #[cfg(scylla_verif)]
+            verif_connected: std::sync::atomic::AtomicU8::new(0),
         }
     }
 
@@ -185,6 +193,11 @@ impl Node {
             pool: node.pool.clone(),
             #[cfg(test)]
             enabled_as_connected: AtomicBool::new(node.enabled_as_connected.load(Ordering::SeqCst)),
+            #[cfg(scylla_verif)]
+            verif_connected: std::sync::atomic::AtomicU8::new(
+                node.verif_connected
+                    .load(std::sync::atomic::Ordering::SeqCst),
+            ),
         }
     }
 
@@ -215,10 +228,33 @@ impl Node {
         if self.enabled_as_connected.load(Ordering::SeqCst) {
             return self.is_enabled();
         }
+        #[cfg(scylla_verif)]
+        match self
+            .verif_connected
+            .load(std::sync::atomic::Ordering::SeqCst)
+        {
+            1 => return false,
+            // A disabled node has no pool and can never be connected.
+            2 => return self.is_enabled(),
+            _ => {}
+        }
         let Ok(pool) = self.get_pool() else {
             return false;
         };
         pool.is_connected()
+    }
+
+    /// Verification hook: overrides what [`Node::is_connected`] reports.
+    #[cfg(scylla_verif)]
+    #[doc(hidden)]
+    pub fn verif_set_connected(&self, connected: Option<bool>) {
+        let v = match connected {
+            None => 0,
+            Some(false) => 1,
+            Some(true) => 2,
+        };
+        self.verif_connected
+            .store(v, std::sync::atomic::Ordering::SeqCst);
     }
 
     /// Returns a boolean which indicates whether this node was is enabled.
@@ -467,6 +503,8 @@ mod tests {
                 rack,
                 pool: None,
                 enabled_as_connected: AtomicBool::new(false),
+                #[cfg(scylla_verif)]
+                verif_connected: std::sync::atomic::AtomicU8::new(0),
             }
         }
 
